@@ -66,7 +66,8 @@ def run_one(it):
         eq.data_values[20].value = 77
         eq.equipment_constants.update({30: secsgem.gem.EquipmentConstant(30, "ec", 0, 500, 50, "u", var.U4, False)})
         eq.alarms.update({40: secsgem.gem.Alarm(40, "al", "alarm text", 1, 140, 141)})
-        eq.collection_events.update({100: secsgem.gem.CollectionEvent(100, "ce", [20])})
+        eq.collection_events.update({100: secsgem.gem.CollectionEvent(100, "ce", [20]),
+                                     101: secsgem.gem.CollectionEvent(101, "ce the host never subscribes", [20])})
         started = []
         eq.callbacks.rcmd_START = lambda **kw: started.append(1)
         host.events.collection_event_received += lambda d: rec["received"].append(
@@ -124,6 +125,59 @@ def run_one(it):
                 got = results.get(api, "NO RETURN") if dn.get(api) else "NO RETURN"
                 rec["calls"].append({"api": api, "want": canon(want() if callable(want) else want), "got": canon(got)})
 
+        def align():
+            """Equal transaction counters on both sides (each side numbers its own transactions; the values may coincide): the
+            side that is behind issues S1F1 requests until both counters are equal.  Counters are only read here."""
+            for _ in range(3):
+                hc, ec = getattr(host.protocol, "_system_counter", None), getattr(eq.protocol, "_system_counter", None)
+                if not isinstance(hc, int) or not isinstance(ec, int):
+                    return False
+                d = (hc - ec) % (1 << 32)
+                if d == 0:
+                    return True
+                side, n = (eq, d) if d < 200 else (host, (1 << 32) - d)
+                if n >= 200:
+                    return False
+                dn = {"v": False}
+
+                def body(side=side, n=n, dn=dn):
+                    for _ in range(n):
+                        side.are_you_there()
+                    dn["v"] = True
+
+                simrt.Thread(target=body, name="hostapp_align").start()
+                s.run_until(lambda: dn["v"], max_dt=200)
+            return False
+
+        def crossing(tag):
+            """A host request and a collection event report of the equipment cross on the link (transactions open in both
+            directions at the same time; with equal counter start values they carry the same system bytes)."""
+            for k in range(2):
+                if it.get("ctr") == "equal" and align():
+                    rec["aligned"] = rec.get("aligned", 0) + 1
+                eq.data_values[20].value = rng.randrange(1000)
+                rec["triggered"].append(canon([100, [eq.data_values[20].value]]))
+                dn = {}
+
+                def a(k=k):
+                    try:
+                        results[tag + f"crossing_request_sv{k}"] = host.request_sv(10)
+                    except Exception as exc:  # noqa: BLE001
+                        results[tag + f"crossing_request_sv{k}"] = f"EXC {type(exc).__name__}: {exc}"
+                    dn["a"] = True
+
+                def b():
+                    eq.trigger_collection_events([100])
+                    dn["b"] = True
+
+                ths = [simrt.Thread(target=a, name=f"hostapp_cross{k}"), simrt.Thread(target=b, name=f"eqapp_cross{k}")]
+                for th in (ths if k == 0 else ths[::-1]):
+                    th.start()
+                s.run_until(lambda: len(dn) == 2 and len(rec["received"]) >= len(rec["triggered"]), max_dt=200)
+                got = results.get(tag + f"crossing_request_sv{k}", "NO RETURN") if dn.get("a") else "NO RETURN"
+                rec["calls"].append({"api": tag + f"crossing_request_sv{k}", "want": canon(eq.status_variables[10].value), "got": canon(got)})
+                rec["calls"].append({"api": tag + f"crossing_trigger_returned{k}", "want": canon(True), "got": canon(bool(dn.get("b")))})
+
         def session(tag):
             call(tag + "clear_collection_events", lambda: (host.clear_collection_events(), "ok")[1], "ok")
             call(tag + "request_svs", lambda: host.request_svs([10]).get(), lambda: [eq.status_variables[10].value])
@@ -150,8 +204,10 @@ def run_one(it):
             for k in range(2):
                 eq.data_values[20].value = rng.randrange(1000)
                 rec["triggered"].append(canon([100, [eq.data_values[20].value]]))
-                eq.trigger_collection_events([100])
+                # second round: one trigger call names an event nobody subscribed to before the subscribed one
+                eq.trigger_collection_events([100] if k == 0 else [101, 100])
                 s.run_until(lambda: len(rec["received"]) >= len(rec["triggered"]), max_dt=100)
+            crossing(tag)
             call(tag + "remote_command", lambda: host.send_remote_command("START", []).HCACK.get(), 4)
             s.run_until(lambda: bool(started), max_dt=50)
             call(tag + "remote_command_executed", lambda: len(started) >= 1, True)
@@ -217,7 +273,7 @@ def run_one(it):
 
     s = simrt.run(main, seed=it["seed"], policy=it["policy"], switch_prob=0.15, max_vtime=1e5, wall_timeout=600,
                   line_funcs=[tc.TcpConnection._start_receiver, tc.TcpConnection.disconnect, secsgem.common.Protocol.get_next_system_counter],
-                  line_cost=1e-3, pct_depth=3, pct_horizon=3000,
+                  line_cost=1e-3, pct_depth=3, pct_horizon=3000, randint=(lambda a, b: 4711) if it.get("ctr") == "equal" else None,
                   line_lag=((secsgem.gem.GemHandler.enable, secsgem.gem.GemHandler.disable), 0.6, 0.05) if it.get("lag") == "enable" else None,
                   wake_lag={"select": (("secsgem_hsmsProtocol_sendSelectReqThread",), 1.0, 0.05),
                             "app": (("hostapp_", "secsgem_gemHandler", "secsgem_hsmsProtocol"), 0.3, 0.05)}.get(it.get("lag")))
@@ -251,7 +307,7 @@ def run(ctx: Ctx):
                         items.append({"id": tid, "active": active, "order": order, "cap": cap, "cycles": cycles, "latency": 0,
                                       "cut": rng.choice([None, 3, 7, 11, 14, 20]) if cycles != ["E", "H"] else None,
                                       "seed": rng.randrange(1 << 30), "policy": rng.choice(["fifo", "random", "pct"]),
-                                      "lag": [None, "select", "app", "enable"][tid % 4]})
+                                      "lag": [None, "select", "app", "enable"][tid % 4], "ctr": "equal" if tid % 3 == 0 else "random"})
     recs = [r_ for batch in pmap(run_batch, chunks(items, 32)) for r_ in batch]
     for r_ in recs:
         if r_.get("errors") and "Machinery" in str(r_["errors"]):
@@ -265,13 +321,16 @@ def run(ctx: Ctx):
         raise Machinery(f"judge: {len(verd)} verdicts for {len(recs)}")
     ctx.traces += len(recs)
     ctx.evaluations += sum(len(r_["calls"]) + len(r_["comm"]) for r_ in recs)
+    ctx.extra["sessions_with_equal_transaction_counters"] = len([r_ for r_ in recs if r_.get("aligned")])
+    if not ctx.extra["sessions_with_equal_transaction_counters"]:
+        ctx.assumptions.append("the transaction counters of the two endpoints could not be aligned (attribute not readable): crossing transactions with equal system bytes were not produced")
     ctx.nontrivial += len({(r_["active"], r_["order"], r_["cap"], tuple(r_["cycles"]), r_["policy"]) for r_ in recs if r_["calls"]})
     for r_ in recs:
         v = verd[r_["id"]]
         if r_["id"] in (1, 8):
             ctx.sample({k: r_[k] for k in ("active", "order", "cap", "cycles", "policy", "comm")} | {"calls": r_["calls"][:5],
                                                                                                  "triggered": r_["triggered"][:2], "received": r_["received"][:2]})
-        base = {"check": "pair", "lag": r_.get("lag"), "active": r_["active"], "order": r_["order"], "cap": r_["cap"], "cycles": r_["cycles"], "policy": r_["policy"], "cut": r_.get("cut"),
+        base = {"check": "pair", "lag": r_.get("lag"), "ctr": r_.get("ctr"), "active": r_["active"], "order": r_["order"], "cap": r_["cap"], "cycles": r_["cycles"], "policy": r_["policy"], "cut": r_.get("cut"),
                 "sched_seed": r_["seed"]}
         if r_["outcome"] != "done" or r_.get("errors"):
             ctx.violation(dict(base, clause="session-did-not-finish", outcome=r_["outcome"], errors=r_.get("errors"), wedge=r_.get("wedge"),
@@ -289,7 +348,7 @@ def run(ctx: Ctx):
                 "disable/enable cycles {none, host, equipment, both} x thread schedule (fifo / random / PCT, optionally with wake-up latency "
                 "of the select thread or of application / protocol helper threads, or the enabling thread descheduled between the "
                 "statements of enable() / disable()); each session: 21 host calls + 3 concurrent ones compared with the "
-                "equipment's tables, 2 collection events, remote command; non-trivial = distinct configurations that completed a session")
+                "equipment's tables, 2 collection events (one triggered together with an event nobody subscribed to), remote command; non-trivial = distinct configurations that completed a session")
     ctx.assumptions += ["link latency is zero in these runs (segmentation by 64-byte socket buffers); schedule space sampled",
                         f"bound for reaching communication: {BOUND} virtual seconds"]
     return ctx.finish()
